@@ -2,6 +2,7 @@ use crate::model::big::U256;
 use crate::model::ed::Aff;
 use crate::model::eddsa::sha512;
 use crate::model::fp::Fp;
+use crate::model::sc::Sc;
 use crate::req::Resp;
 use crate::util::a32;
 
@@ -16,6 +17,46 @@ pub fn elligator2_u(r: &Fp) -> Fp {
     } else {
         d.neg().sub(&a)
     }
+}
+
+/// Verification with a context longer than 255 octets (release builds). The documentation gives the domain
+/// "up to 255 bytes inclusive" and the code `debug_assert`s it, so acceptance or rejection of such a call is
+/// not specified; what the property demands is: no panic, `with_context` refuses, and an ACCEPTED call is at
+/// least a solution of the verification equation for the prefix the code then hashes (length octet = len mod
+/// 256) - never an acceptance of arbitrary garbage. (The first version of this oracle said "always rejected",
+/// which holds only with cryptographic probability: a small-order key with S = 0 verifies under every
+/// context, over-long ones included - a false alarm of that oracle, see DESIGN.md 7.1.)
+pub fn oracle_longctx(req: &crate::req::Req, got: &Resp) -> Result<(), String> {
+    use crate::model::eddsa;
+    let a = &req.a;
+    if a[0].len() != 32 || a[2].len() != 64 {
+        return if *got == Resp::Rej { Ok(()) } else { Err(format!("tot.verify_longctx: malformed request answered {}", got.short())) };
+    }
+    let b = match got {
+        Resp::Ok(b) if b.len() == 4 => b,
+        _ => return Err(format!("tot.verify_longctx: unexpected response {}", got.short())),
+    };
+    if b[3] != 0 {
+        return Err("with_context accepted a context longer than 255 octets (documented: Err)".into());
+    }
+    let (pk, sig) = (a32(&a[0]), {
+        let mut s = [0u8; 64];
+        s.copy_from_slice(&a[2]);
+        s
+    });
+    let mut dom = b"SigEd25519 no Ed25519 collisions".to_vec();
+    dom.push(1);
+    dom.push(a[3].len() as u8);
+    dom.extend_from_slice(&a[3]);
+    let ph = sha512(&[&a[1]]);
+    let plain = eddsa::verify(&pk, &dom, &ph, &sig, crate::mops::eddsa::rule()) as u8;
+    let strict = eddsa::verify_strict(&pk, &dom, &ph, &sig, crate::mops::eddsa::rule()) as u8;
+    for (i, (name, allowed)) in [("verify_prehashed", plain), ("verify_prehashed_strict", strict), ("raw_verify_prehashed", plain)].iter().enumerate() {
+        if b[i] != 0 && b[i] != *allowed {
+            return Err(format!("{} accepted a signature under an over-long context although the verification equation does not hold", name));
+        }
+    }
+    Ok(())
 }
 
 pub fn exec(op: &str, a: &[Vec<u8>]) -> Option<Resp> {
@@ -43,6 +84,26 @@ pub fn exec(op: &str, a: &[Vec<u8>]) -> Option<Resp> {
                 Some(p) => Resp::Ok(p.mul8().compress().to_vec()),
                 None => Resp::Panic("model: Elligator2 output is not on the curve".into()),
             }
+        }
+        "tot.verify_chosen_k" => {
+            if a[0].len() != 32 || a[1].len() != 32 || a[2].len() != 32 {
+                return Some(Resp::Rej);
+            }
+            let (ab, rb, sb) = (a32(&a[0]), a32(&a[1]), a32(&a[2]));
+            let pa = match Aff::decompress(&ab) {
+                Some(p) => p,
+                None => return Some(Resp::Ok(vec![0])),
+            };
+            let s = match Sc::from_canonical(&sb) {
+                Some(s) => s,
+                None => return Some(Resp::Ok(vec![0])),
+            };
+            let mut w = [0u8; 64];
+            w[..32].copy_from_slice(&rb);
+            w[32..].copy_from_slice(&ab);
+            let k = Sc::from_bytes_mod_order_wide(&w);
+            let rr = Aff::basepoint().mul(&s.0).sub(&pa.mul(&k.0));
+            Resp::Ok(vec![(rr.compress() == rb) as u8])
         }
         "tot.verify_longctx" => {
             if a[0].len() != 32 || a[2].len() != 64 {
